@@ -153,7 +153,41 @@ func (c *Ctx) RuleMapOrder() *Result {
 					switch f.Name() {
 					case "Keys", "Values", "All":
 						res.Instances++
-						res.undecided(load.FnName(fn)+":"+qualName(f), c.P.InstrPos(call), "iteration through the maps package is not modelled; sort the result or range over sorted keys")
+						key := load.FnName(fn) + ":" + qualName(f)
+						verdict, why := "", ""
+						for _, r := range referrers(call) {
+							uc, ok := r.(*ssa.Call)
+							if !ok {
+								verdict, why = "undecided", "the sequence is consumed by something other than slices.Sorted / slices.Collect"
+								break
+							}
+							uf := staticCallee(&uc.Call)
+							switch {
+							case uf != nil && objPkgPath(uf) == "slices" && strings.HasPrefix(uf.Name(), "Sorted"):
+								if verdict == "" {
+									verdict, why = "ok", "the sequence goes straight into slices."+uf.Name()+": a sorted slice, whatever the iteration order"
+								}
+							case uf != nil && objPkgPath(uf) == "slices" && (uf.Name() == "Collect" || uf.Name() == "AppendSeq"):
+								if w := c.sortedBeforeUse(uc, nil, 0); w != "" {
+									verdict, why = "bad", "elements are collected in map order and "+w
+								} else if verdict == "" {
+									verdict, why = "ok", "collect-then-sort: the collected slice is sorted before every order-sensitive use"
+								}
+							default:
+								verdict, why = "undecided", "the sequence is consumed by "+calleeLabel(&uc.Call)+", which is not modelled"
+							}
+						}
+						switch verdict {
+						case "ok":
+							res.ok(key, c.P.InstrPos(call), why)
+						case "bad":
+							res.bad(key, c.P.InstrPos(call), why)
+						default:
+							if why == "" {
+								why = "iteration through the maps package is not modelled; sort the result or range over sorted keys"
+							}
+							res.undecided(key, c.P.InstrPos(call), why)
+						}
 					}
 				}
 			}
